@@ -243,7 +243,7 @@ def check_point(ctx, geo, snap, p, mode, aids, case):
     return exp
 
 
-def make_aids(ctx, geo, snap):
+def make_aids(ctx, geo, snap, structured=False):
     rng = ctx.rng
     qt_all = geo.column_quadtree()
     bounds_rect = geo.bounds
@@ -288,6 +288,26 @@ def make_aids(ctx, geo, snap):
             sub.update(frontier)
         return {'qtree': geo.column_quadtree(sorted(sub, key=lambda c: c.name))}
 
+    def patch_with_own_quadtree(exp, pos):
+        # a search area: a patch of columns (a ball of the neighbour graph around some column near the answer, so that the
+        # answer is as often on its rim as inside) together with the quadtree built for exactly that patch
+        if exp is None:
+            return None
+        r = rng.randint(1, 3)
+        ball, frontier = {exp}, [exp]
+        for _ in range(r):
+            frontier = [n for c in frontier for n in c.neighbour if n not in ball]
+            ball.update(frontier)
+        mid = rng.choice(sorted(ball, key=lambda c: c.name))
+        sub, frontier = {mid}, [mid]
+        for _ in range(r):
+            frontier = [n for c in frontier for n in c.neighbour if n not in sub]
+            sub.update(frontier)
+        if exp not in sub:
+            return None
+        cols_ = sorted(sub, key=lambda c: c.name)
+        return {'columns': cols_, 'qtree': geo.column_quadtree(cols_)}
+
     aids = [('none', lambda e, p: {}),
             ('guess-right', lambda e, p: {'guess': e} if e is not None else None),
             ('guess-neighbour', nbr_guess),
@@ -300,9 +320,18 @@ def make_aids(ctx, geo, snap):
             #  connected patch need not connect the leaf's columns to the answer; the statement names
             #  the quadtree of the grid)
             ('guess-far+quadtree', lambda e, p: dict(far_guess(e, p), qtree=qt_all)),
+            # a column subset together with a guess that is wrong (the search then goes through the guess's neighbours that are
+            # in the subset): what this call leaves behind in the geometry is seen by the quadtree searches after it
+            ('columns-subset+guess-neighbour', lambda e, p: dict(subset(e, p), **nbr_guess(e, p)) if (e is not None and nbr_guess(e, p)) else None),
+            ('columns-subset+guess-far', lambda e, p: dict(subset(e, p), **far_guess(e, p)) if e is not None else None),
+            ('quadtree-again', lambda e, p: {'qtree': geo.column_quadtree()}),
             ('guess-neighbour+bounds', lambda e, p: dict(nbr_guess(e, p) or {}, bounds=bounds_rect) if nbr_guess(e, p) else None)]
     if bpoly is not None and convex_domain:
         aids.append(('bounds-polygon', lambda e, p: {'bounds': bpoly}))
+    if structured:
+        # (only on structured rectangular grids, where the columns whose boxes meet a leaf rectangle always form a connected
+        #  part of such a patch: see the remark on subset quadtrees above)
+        aids.append(('patch+its-quadtree', patch_with_own_quadtree))
     return aids
 
 
@@ -480,7 +509,7 @@ def check_line(ctx, geo, snap, case):
 
 def run_batch(ctx, geo, desc, npoints, nlines, batch):
     snap = Snap(geo)
-    aids = make_aids(ctx, geo, snap)
+    aids = make_aids(ctx, geo, snap, structured=(str(desc.get('kind', '')).split('+')[0] in ('rect',) and batch in ('fresh', 'after-translate')))
     case = {'geo': desc, 'batch': batch, 'seed': ctx.seed, 'shard': ctx.shard}
     modes = ['inside'] * 5 + ['box'] * 2 + ['outside'] + ['node-aligned'] * 2
     if desc.get('rot90'):
